@@ -108,6 +108,18 @@ def _job(args):
                             fn = Path(s)
                         else:
                             fn = os.path.join(os.path.abspath(p), s)
+                        # history on the same DataDir: the permitted accesses came first (a plain 'r' open / a read
+                        # with the very same spelling must not weaken what is refused afterwards)
+                        if (ri + k0 + seed) % 2 == 0:
+                            try:
+                                with a.datadir.open_file(fn, 'r') as fh:
+                                    fh.read(1)
+                            except Exception:
+                                pass
+                            try:
+                                a.datadir.read_txt(fn)
+                            except Exception:
+                                pass
                         before = disk.snapshot(root)
                         try:
                             do_call(a.datadir, method, fn, ow, multi=(ri + k0 + seed) if verdict == 'Refused' else 0)
